@@ -27,7 +27,17 @@ func init() {
 	h.Handlers["analysis"] = analysisJob
 }
 
-func analysisJob(payload string) (out string) {
+// payload: one query in hex, or several separated by commas: they are analysed in that order in this
+// process (a history) and the answers are joined by " || "
+func analysisJob(payload string) string {
+	var outs []string
+	for _, a := range strings.Split(payload, ",") {
+		outs = append(outs, analyseOne(a))
+	}
+	return strings.Join(outs, " || ")
+}
+
+func analyseOne(payload string) (out string) {
 	defer func() {
 		if r := recover(); r != nil {
 			out = "panic " + hex.EncodeToString([]byte(fmt.Sprint(r)))
@@ -58,7 +68,19 @@ func analysisJob(payload string) (out string) {
 		}
 		copy(ap[i], cp)
 	}
-	_ = snapshot
+	// ... and BUILDING on one (append) must not overwrite another
+	for i := range ap {
+		ext := append(ap[i], "\x00built", "\x00built", "\x00built")
+		for k := range ap {
+			if k != i && strings.Contains(fmt.Sprint(ap[k]), "built") {
+				indep = "0"
+			}
+		}
+		_ = ext
+		if fmt.Sprint(ap) != snapshot {
+			indep = "0"
+		}
+	}
 	hx := func(s string) string { return "x" + hex.EncodeToString([]byte(s)) }
 	rfs := []string{}
 	for _, f := range rf {
@@ -76,7 +98,10 @@ func analysisJob(payload string) (out string) {
 }
 
 // c20gen generates queries in which every root-started path begins with a key.
-type c20gen struct{ g *qgen }
+type c20gen struct {
+	g     *qgen
+	preds []string // the `@` predicates of the filters generated since the last reset
+}
 
 var c20Keys = []string{"a", "b", "c", "Ab", "arr", "n", "s", "k_1"}
 
@@ -144,7 +169,9 @@ func (x *c20gen) filter(depth int) string {
 		if depth > 0 && r.Intn(5) == 0 {
 			parts = append(parts, x.group(depth-1))
 		} else {
-			parts = append(parts, x.boolPath("@", depth))
+			p := x.boolPath("@", depth)
+			x.preds = append(x.preds, p)
+			parts = append(parts, p)
 		}
 	}
 	return "[" + strings.Join(parts, ",") + "]"
@@ -214,11 +241,16 @@ func parseAnalysis(line string) (rf []string, ap [][]string, indep bool, ok bool
 
 func c20(c *Ctx) {
 	n := c.N(6000, 150000)
-	c.Rule = "queries from a grammar (1..4 leading keys, filters with 1..3 predicates, nested groups, path / group / nested-call arguments; every `$` path and top-level `@` path begins with a key), random, depth <=3; each analysed by the implementation and the model (exact lists compared), the implementation's lists checked for sortedness / duplicates / independence, and the query evaluated on a random document and on every single-field perturbation (delete / replace / add) of each root field not listed. Non-trivial = the query has a filter, an argument path or a group; distinct by query text."
+	c.Rule = "queries from a grammar, each followed in the same process by the `@` predicates of its filters standing alone / in a top-level group / in a group argument, sometimes in the other order and with a repeat (histories of analyses); grammar: (1..4 leading keys, filters with 1..3 predicates, nested groups, path / group / nested-call arguments; every `$` path and top-level `@` path begins with a key), random, depth <=3; each analysed by the implementation and the model (exact lists compared), the implementation's lists checked for sortedness / duplicates / independence (overwriting one path, and appending to one path, leaves the others as they were), and the query evaluated on a random document and on every single-field perturbation (delete / replace / add) of each root field not listed. Non-trivial = the query has a filter, an argument path or a group; distinct by query text."
 	g := &c20gen{g: &qgen{c: c}}
 	seen := map[string]bool{}
 	var queries []string
+	// chains: a query, then (in the same process, in this order) the `@` predicates of its filters on
+	// their own and as members of a top-level group — the same text in a position where it reads the
+	// document — and sometimes the query once more
+	var chains [][]int
 	for len(queries) < n {
+		g.preds = nil
 		q := g.query(1 + c.Rng.Intn(3))
 		if seen[q] {
 			if len(seen) > 50*n {
@@ -228,15 +260,58 @@ func c20(c *Ctx) {
 			continue
 		}
 		seen[q] = true
+		chain := []int{len(queries)}
 		queries = append(queries, q)
+		for _, p := range g.preds {
+			if c.Rng.Intn(3) == 0 {
+				continue
+			}
+			for _, f := range []string{p, "{OR," + p + ",$." + g.key() + "}", "$." + g.key() + ".Equal({" + p + "})"} {
+				if c.Rng.Intn(2) == 0 {
+					chain = append(chain, len(queries))
+					queries = append(queries, f)
+				}
+			}
+		}
+		if c.Rng.Intn(4) == 0 {
+			chain = append(chain, chain[0])
+		}
+		if c.Rng.Intn(3) == 0 && len(chain) > 2 { // the other order as well
+			c.Rng.Shuffle(len(chain), func(a, b int) { chain[a], chain[b] = chain[b], chain[a] })
+		}
+		chains = append(chains, chain)
 	}
-	jobs := make([]h.Job, len(queries))
+	jobs := make([]h.Job, len(chains))
 	lines := make([]string, len(queries))
 	for i, q := range queries {
-		jobs[i] = h.Job{Kind: "analysis", Payload: hex.EncodeToString([]byte(q))}
 		lines[i] = "analysis\t" + "x" + hex.EncodeToString([]byte(q)) + "\t" + h.UniTable(q)
 	}
-	impl := h.RunJobs(jobs, 12)
+	for k, chain := range chains {
+		var hs []string
+		for _, i := range chain {
+			hs = append(hs, hex.EncodeToString([]byte(queries[i])))
+		}
+		jobs[k] = h.Job{Kind: "analysis", Payload: strings.Join(hs, ",")}
+	}
+	impl := make([]string, len(queries))
+	chainOf := make([]int, len(queries))
+	for k, line := range h.RunJobs(jobs, 12) {
+		outs := strings.Split(line, " || ")
+		for pos, i := range chains[k] {
+			o := line // fatal / hang: the whole chain
+			if len(outs) == len(chains[k]) {
+				o = outs[pos]
+			}
+			if impl[i] == "" || (strings.HasPrefix(impl[i], "ok ") && o != impl[i]) {
+				if impl[i] != "" && strings.HasPrefix(o, "ok ") {
+					c.Violation("relation", fmt.Sprintf("query %q: analysed twice in one process with different answers: %s then %s", queries[i], impl[i], o),
+						map[string]any{"kind": "analysis", "query": queries[i], "chain": jobs[k].Payload, "implementation": o})
+				}
+				impl[i] = o
+				chainOf[i] = k
+			}
+		}
+	}
 	var model []string
 	if c.Proofs.ModelBuilt {
 		var err error
@@ -296,7 +371,7 @@ func c20(c *Ctx) {
 				c.Declined++
 			} else if m != implCmp {
 				c.Violation("correspondence", fmt.Sprintf("query %q: analyses differ: implementation %s, model %s", q, implCmp, m),
-					map[string]any{"kind": "analysis", "query": q, "implementation": implCmp, "model": m, "correspondence": "Model/Analysis.v root_fields / addressed_paths vs GetRootFieldsAccessed / AddressedPaths (theorems C20_* are about the model)"})
+					map[string]any{"kind": "analysis", "query": q, "chain": jobs[chainOf[i]].Payload, "implementation": implCmp, "model": m, "correspondence": "Model/Analysis.v root_fields / addressed_paths vs GetRootFieldsAccessed / AddressedPaths (theorems C20_* are about the model)"})
 			}
 		}
 		if i%(len(queries)/8+1) == 0 {
